@@ -4,8 +4,10 @@ package main
 import (
 	"encoding/json"
 	"fmt"
+	"io"
 	"strconv"
 	"strings"
+	"testing/iotest"
 	"time"
 
 	"github.com/alecthomas/participle/v2/lexer"
@@ -162,6 +164,53 @@ func (e *explorer) runDef(fam string, def m.Def, inputs []string) {
 			}
 		}
 	}
+	// the text may arrive through any io.Reader: one that hands out its last bytes together with io.EOF,
+	// one byte at a time, or in chunks that cut runes in half - the token stream is that of the text
+	if e.prop == "C03" || e.prop == "C04" {
+		var picks []string
+		if len(inputs) > 0 {
+			picks = append(picks, inputs[len(inputs)-1], inputs[len(inputs)/2], inputs[len(inputs)/3])
+		}
+		for _, in := range picks {
+			want := runString(lexdrive.Drive(d, "f.txt", in, 0))
+			for ri, mk := range []func() io.Reader{
+				func() io.Reader { return iotest.DataErrReader(strings.NewReader(in)) },
+				func() io.Reader { return iotest.OneByteReader(strings.NewReader(in)) },
+				func() io.Reader { return iotest.DataErrReader(iotest.OneByteReader(strings.NewReader(in))) },
+				func() io.Reader { return &chunkReader{s: in, n: 3} },
+			} {
+				w.Count("evaluations", 1)
+				w.Count("reader_shapes", 1)
+				if got := runString(driveReader(d, mk())); got != want {
+					w.Violate(hx.Violation{Key: key(fam, def, in) + fmt.Sprintf(" :: reader#%d", ri), Class: "reader-shape-changes-tokens", Detail: map[string]any{"from_string": want, "from_reader": got,
+						"reader": []string{"iotest.DataErrReader", "iotest.OneByteReader", "DataErrReader(OneByteReader)", "3-byte chunks, last one together with io.EOF"}[ri]}})
+					break
+				}
+			}
+		}
+	}
+	// token slices handed out by lexer.ConsumeAll stay what they were when later inputs are lexed
+	if e.prop == "C04" && len(inputs) > 2 {
+		a, b := inputs[len(inputs)-1], inputs[len(inputs)/2]
+		consume := func(in string) ([]lexer.Token, error) {
+			lx, err := d.Lex("a.txt", strings.NewReader(in))
+			if err != nil {
+				return nil, err
+			}
+			return lexer.ConsumeAll(lx)
+		}
+		w.Count("evaluations", 1)
+		pan, msg := hx.Guard(func() {
+			ta, _ := consume(a)
+			before := fmt.Sprintf("%#v", ta)
+			_, _ = consume(b)
+			_, _ = consume(a + b)
+			if after := fmt.Sprintf("%#v", ta); after != before {
+				w.Violate(hx.Violation{Key: key(fam, def, a) + fmt.Sprintf(" :: then ConsumeAll of %q", b), Class: "tokens-change-after-they-were-returned", Detail: map[string]any{"when_returned": before, "after_lexing_other_inputs": after}})
+			}
+		})
+		_, _ = pan, msg
+	}
 	for _, in := range inputs {
 		w.Case(func() string { return key(fam, def, in) })
 		w.Count("evaluations", 1)
@@ -230,6 +279,59 @@ func (e *explorer) runDef(fam string, def m.Def, inputs []string) {
 
 func runString(r lexdrive.Run) string {
 	return fmt.Sprintf("%v|%v|%v|%q", r.Toks, r.EOF != nil, r.Err, r.Panicked)
+}
+
+// chunkReader hands out n bytes per Read and the last chunk together with io.EOF.
+type chunkReader struct {
+	s string
+	n int
+}
+
+func (c *chunkReader) Read(p []byte) (int, error) {
+	k := c.n
+	if k > len(c.s) {
+		k = len(c.s)
+	}
+	if k > len(p) {
+		k = len(p)
+	}
+	copy(p, c.s[:k])
+	c.s = c.s[k:]
+	if len(c.s) == 0 {
+		return k, io.EOF
+	}
+	return k, nil
+}
+
+// driveReader lexes what the reader delivers (same shape of result as lexdrive.Drive without extra calls).
+func driveReader(def lexer.Definition, rd io.Reader) (r lexdrive.Run) {
+	pan, msg := hx.Guard(func() {
+		lx, err := def.Lex("f.txt", rd)
+		if err != nil {
+			r.Err = err
+			return
+		}
+		for {
+			t, err := lx.Next()
+			if err != nil {
+				r.Err = err
+				return
+			}
+			if t.EOF() {
+				tt := t
+				r.EOF = &tt
+				return
+			}
+			r.Toks = append(r.Toks, t)
+			if len(r.Toks) > 64 {
+				return
+			}
+		}
+	})
+	if pan {
+		r.Panicked = msg
+	}
+	return
 }
 
 // driveAlternately advances two lexers of one definition in lock step (A.Next, B.Next, ...).
